@@ -347,6 +347,7 @@ impl<K: CacheKey + 'static> DiskCache<K> {
             .acquire()
             .await
             .map_err(|_| CacheError::Backend("Failed to acquire I/O semaphore".to_string()))?;
+        #[cfg(feature = "verif-hooks")] crate::verif_hooks::sched_point("disk.write_file.permit-acquired");
 
         // Write to temporary file first for atomicity. The name is unique per write:
         // two writers of one key (or of keys that differ only in their extension) must
